@@ -100,6 +100,11 @@ partial def parseStmt (tp : TimeParser τ) : Sexp → Stmt τ
   | .list (.atom "collect" :: progs) => .collect (progs.map (fun r => match r with
       | .list (.atom "prog" :: ss) => ss.map (parseStmt tp)
       | _ => []))
+  | .list (.atom "first" :: count :: brk :: .list (.atom "progs" :: progs) :: body) =>
+    .first (progs.map (fun r => match r with
+      | .list (.atom "prog" :: ss) => ss.map (parseStmt tp)
+      | _ => [])) (match count with | .atom "none" => none | c => some c.nat!)
+      (match brk with | .atom "none" => none | c => some c.nat!) (body.map (parseStmt tp))
   | .list (.atom "nestedrun" :: start :: progs) => .nestedRun (progs.map (fun r => match r with
       | .list (.atom "prog" :: ss) => ss.map (parseStmt tp)
       | _ => [])) (tm tp start)
@@ -158,7 +163,7 @@ def runScenario (tp : TimeParser τ) (x : Sexp) : String :=
     let lockObs := codeStr ((w.locks.toList.take nUser).map (fun l => if l.owner.isNone then 1 else 0))
     let levelObs := ";".intercalate ((List.range decls.resources.length).filterMap (fun n =>
       (World.lookup w.resNames n).map (fun rid => codeStr (w.res.getD rid default).levels)))
-    let queueObs := codeStr (w.queues.toList.map (fun q => (q.buffer.length : Int)))
+    let queueObs := codeStr ((w.queues.toList.take (num "queues" 0)).map (fun q => (q.buffer.length : Int)))
     s!"{trace}|{outcome}|{TimeLike.repr w.time}|{codeStr unfinished}|locks={lockObs}/levels={levelObs}/queues={queueObs}/visible=0"
   | _ => "bad-op"
 
